@@ -153,7 +153,7 @@ fn describe(c: &Case) -> Vec<String> {
 pub fn run(cfg: &RunCfg) -> Report {
     let mut rep = Report::new(
         "C03",
-        "[a sample also as instances of parameterized types] [each also in one compilation together with modules of the other defaults, in two generation orders] exhaustive: module default {EXPLICIT, IMPLICIT, AUTOMATIC, none} × keyword {none, IMPLICIT, EXPLICIT} × class ×4 × position {type assignment, SEQUENCE component, SET component, CHOICE alternative, component of an anonymous nested type, SEQUENCE OF/SET OF element} × tagged kind {primitive, referenced SEQUENCE, referenced CHOICE, inline CHOICE, open type} (1440 points); automatic-tagging shapes (tag on no / each component × class × SEQUENCE/CHOICE × nested-only × after the marker) under every default; plus seeded random compositions with tags at every position. Observed: #[rasn(tag(..))] / automatic_tags via syn. Explicit marking on CHOICE/open-typed positions is not observable (rasn tags them explicitly itself) and is compared modulo that",
+        "[every type with a plain INTEGER component also with that component written as a fixed-type class field reference] [a sample also as instances of parameterized types] [each also in one compilation together with modules of the other defaults, in two generation orders] exhaustive: module default {EXPLICIT, IMPLICIT, AUTOMATIC, none} × keyword {none, IMPLICIT, EXPLICIT} × class ×4 × position {type assignment, SEQUENCE component, SET component, CHOICE alternative, component of an anonymous nested type, SEQUENCE OF/SET OF element} × tagged kind {primitive, referenced SEQUENCE, referenced CHOICE, inline CHOICE, open type} (1440 points); automatic-tagging shapes (tag on no / each component × class × SEQUENCE/CHOICE × nested-only × after the marker) under every default; plus seeded random compositions with tags at every position. Observed: #[rasn(tag(..))] / automatic_tags via syn. Explicit marking on CHOICE/open-typed positions is not observable (rasn tags them explicitly itself) and is compared modulo that",
     );
     if let Some(r) = &cfg.replay {
         let c = case_from_replay(r).expect("bad replay");
@@ -164,6 +164,8 @@ pub fn run(cfg: &RunCfg) -> Report {
         let setting = r.get("case").unwrap_or(r).get("setting").and_then(|x| x.as_str()).unwrap_or("").to_string();
         if setting.starts_with("written as the body of a parameterized type") {
             judge_templates("c03", &[c], &mut rep, &describe);
+        } else if setting.starts_with("one INTEGER component written as a fixed-type class field") {
+            judge_class_field("c03", &[c], &mut rep, &describe);
         } else if !setting.is_empty() {
             // the same type under every module default, in one compilation
             let all: Vec<Case> = ENVS.iter().map(|e| Case { env: e, ..c.clone() }).collect();
@@ -184,6 +186,8 @@ pub fn run(cfg: &RunCfg) -> Report {
     judge_multi("c03", &sample, &mut rep, &describe);
     // ... and when the type is reached through an instance of a parameterized type
     judge_templates("c03", &sample, &mut rep, &describe);
+    // ... and when the definition mentions a class field (the linker rebuilds such definitions member by member)
+    judge_class_field("c03", &cases, &mut rep, &describe);
     cross_module(&mut rep, None);
     rep
 }
